@@ -180,8 +180,14 @@ def fresh_run(ctx, st, req):
     return res
 
 
+def path_kind(p):
+    return "data-target-output" if p[0] == "g" else "data-directory-entry" if p.startswith("dd") else "binary" if p == "bin" else "data-file"
+
+
 def diff_inputs(old, new):
-    """Classifies how the runtime inputs (spec terms) of a test differ between two invocations."""
+    """How the runtime inputs (spec terms) of a test differ between two invocations: a list of changed aspects.
+    A reuse across several simultaneous changes is reported once per aspect, so that it is explained by recorded
+    findings only if EVERY changed aspect is one the code is known to ignore."""
     cls = []
     if sorted(old["cmd"]) != sorted(new["cmd"]):
         cls.append("test-command")
@@ -189,19 +195,17 @@ def diff_inputs(old, new):
         cls.append("no_test_output")
     fo = {e["p"]: e["c"] for e in old["files"]}
     fn = {e["p"]: e["c"] for e in new["files"]}
-    if fo != fn:
-        moved = sorted(set(fo) ^ set(fn))
-        same_content = all(fo[p] == fn[p] for p in set(fo) & set(fn))
-        if moved and same_content and sorted(fo.values()) == sorted(fn.values()):
-            kind = ("data-target-output" if all(p[0] == "g" for p in moved)
-                    else "data-directory-entry" if all(p.startswith("dd") for p in moved) else "data-file")
+    for p in sorted(set(fo) & set(fn)):
+        if fo[p] != fn[p]:
+            cls.append("runtime-file-content:" + path_kind(p))
+    for kind in ("data-target-output", "data-directory-entry", "binary", "data-file"):
+        gone = sorted(fo[p] for p in set(fo) - set(fn) if path_kind(p) == kind)
+        came = sorted(fn[p] for p in set(fn) - set(fo) if path_kind(p) == kind)
+        if gone and gone == came:
             cls.append("runtime-file-renamed-same-content:" + kind)
-        elif not same_content and not moved:
-            which = sorted(p for p in fo if fo[p] != fn[p])
-            cls.append("runtime-file-content:" + "+".join({"d": "data", "g": "dep-output", "b": "binary"}[p[0]] for p in which))
-        else:
-            cls.append("runtime-file-set")
-    return "+".join(cls) if cls else "nothing"
+        elif gone or came:
+            cls.append("runtime-file-set:" + kind)
+    return sorted(set(cls)) or ["nothing"]
 
 
 def c11_replay(ctx, idx, beh, opts):
@@ -263,13 +267,14 @@ def c11_replay(ctx, idx, beh, opts):
             if not wrong and may and expect[t] == "pass":
                 continue
             if last is None:
-                sig = "C11 result-reported-without-any-execution"
+                sigs = ["C11 result-reported-without-any-execution"]
             elif last[2] != "pass":
-                sig = "C11 failing-result-reused"
+                sigs = ["C11 failing-result-reused"]
             else:
-                sig = "C11 result-reused-across-change changed=%s" % diff_inputs(last[1], inputs[t])
-            viols.append((sig, dict(detail, target=t, reported=obs["outcome"][t], fresh=expect[t], outcome_differs=wrong,
-                                    passing_run_on_current_inputs_exists=may)))
+                sigs = ["C11 result-reused-across-change changed=%s" % c for c in diff_inputs(last[1], inputs[t])]
+            for sig in sigs:
+                viols.append((sig, dict(detail, target=t, reported=obs["outcome"][t], fresh=expect[t], outcome_differs=wrong,
+                                        changed_since_reused_run=sigs, passing_run_on_current_inputs_exists=may)))
         exp_rc0 = all(expect[t] == "pass" for t in req)
         if (obs["rc"] == 0) != exp_rc0 and not viols:
             viols.append(("C11 exit-status-%d-where-fresh-run-%s" % (obs["rc"], "passes" if exp_rc0 else "fails"),
